@@ -86,6 +86,8 @@ type RespObs struct {
 	Calls    []Call    `json:"calls,omitempty"`
 	ACalls   []Call    `json:"acalls"` // the same, abstracted: kind + (for mutations) the abstract pid
 	Wf       bool      `json:"wf"`     // the rejected token/cookie of this event is well formed enough to reach storage
+	Junk     string    `json:"junk,omitempty"` // the concrete variant of a rejecting class this execution used (makes replays exact)
+	Pre      *Obs      `json:"pre,omitempty"`  // the projection right before the request, when it differs from the previous post-state (TOTP period moved on)
 	Panic    string    `json:"panic,omitempty"`
 	FaultHit bool      `json:"faultHit"`
 	Leaks    []Leak    `json:"leaks"`
@@ -188,6 +190,13 @@ func (w *World) mailedToken(list []string, e Event, kind string) string {
 		return base64.URLEncoding.EncodeToString(append(append([]byte(nil), raw...), 'x'))
 	case j == "trail" && base != "":
 		return base + "A" // undecodable: genuine token + trailing junk byte
+	case strings.HasPrefix(j, "sfx:") && base != "":
+		// the genuine token with something glued on that is not part of its alphabet (punctuation a mail
+		// client appends, a tracking parameter, a blank, a NUL, the token again). Not CR / LF: Go's base64
+		// decoder skips them, so that is another spelling of the same bytes, which the property accepts
+		return base + map[string]string{"dot": ".", "paren": ")", "amp": "&utm_source=mail", "space": " ", "nul": "\x00", "dup": "!" + base}[strings.TrimPrefix(j, "sfx:")]
+	case j == "pfx:space" && base != "":
+		return " " + base
 	case j == "splice" && len(list) >= 2:
 		a, _ := base64.URLEncoding.DecodeString(list[len(list)-1])
 		b, _ := base64.URLEncoding.DecodeString(list[len(list)-2])
@@ -443,6 +452,16 @@ func (w *World) BuildReq(e Event) Req {
 			"smsEmailVerify": "/auth/2fa/sms/email/verify"}[e.K]
 		if rq.Path == "" {
 			rq.Path = "/auth/nothing-here"
+		}
+	case "BadMethod":
+		// a method the shipped router does not serve, on any route (k as for Get, or "logout")
+		rq.Method = e.Method
+		if e.K == "logout" {
+			rq.Path = "/auth/logout"
+		} else {
+			ge := e
+			ge.Act = "Get"
+			rq.Path = w.BuildReq(ge).Path
 		}
 	case "Logout":
 		rq.Method, rq.Path = e.Method, "/auth/logout"
@@ -717,7 +736,8 @@ func (w *World) Step(e Event) (RespObs, *Req, Resp) {
 		case (e.Act == "LoginPost" || e.Act == "RegisterPost") && e.Pw <= 0 && e.Valid:
 			e.Junk = []string{"wrong", "empty", "hash", "prefix", "nul", "long"}[w.junkN%6]
 		case (e.Act == "ConfirmGet" || e.Act == "RecoverEnd") && e.Tok <= 0:
-			e.Junk = []string{"garbage", "empty", "flip:0", "flip:511", "flip:256", "trunc", "ext", "trail", "splice", "stored", "zero"}[w.junkN%11]
+			e.Junk = []string{"garbage", "empty", "flip:0", "flip:511", "flip:256", "trunc", "ext", "trail", "splice", "stored", "zero",
+				"sfx:dot", "sfx:amp", "sfx:space", "sfx:nul", "sfx:dup", "sfx:paren", "pfx:space"}[w.junkN%18]
 		case e.Act == "OtpLoginPost" && e.Tok <= 0:
 			e.Junk = []string{"garbage", "empty", "hash"}[w.junkN%3]
 		case e.Act == "EmailVerifyEnd" && e.Tok <= 0:
@@ -726,6 +746,11 @@ func (w *World) Step(e Event) (RespObs, *Req, Resp) {
 			e.Junk = []string{"garbage", "empty", "nostate"}[w.junkN%3]
 		}
 	}
+	var pre *Obs
+	if w.refreshT0() {
+		o := w.Project()
+		pre = &o
+	}
 	rq := w.BuildReq(e)
 	w.rebaseSMS()
 	r := w.In.Do(rq)
@@ -733,6 +758,8 @@ func (w *World) Step(e Event) (RespObs, *Req, Resp) {
 	w.learn(r)
 	ro := w.classify(e, r)
 	ro.Wf = rq.Wf
+	ro.Junk = e.Junk
+	ro.Pre = pre
 	ro.Leaks = w.Scan(r.Log)
 	return ro, &rq, r
 }
